@@ -187,7 +187,7 @@ pub fn run(args: &[String]) -> i32 {
                 let written = run.written();
                 let mut e = c.clone();
                 e.as_object_mut().unwrap().remove("configText");
-                e["ev"] = json!("TypeGen");
+                e["ev"] = json!(c["evName"].as_str().unwrap_or("TypeGen"));
                 e["exit"] = json!(run.exit);
                 e["panicked"] = json!(run.panicked());
                 e["diag"] = json!(if run.exit != 0 || run.panicked() { format!("{}\n{}", run.stdout.chars().take(1500).collect::<String>(), run.stderr.chars().take(800).collect::<String>()) } else { String::new() });
